@@ -1,6 +1,6 @@
 #!/bin/sh
 # development helper: run every claimed check (quick) and print exit codes
-cd /verif
+cd "$(dirname "$0")/.."
 for p in $(python3 -c "import json;print(' '.join(c['property_id'] for c in json.load(open('MANIFEST.json'))['checks']))"); do
   ./check $p --tier ${1:-quick} > /tmp/runall_$p.log 2>&1; echo "$p exit=$? $(tail -1 /tmp/runall_$p.log)"
 done
